@@ -56,6 +56,8 @@ fn dispatch(op: &str, input: &mut Value) -> OpResult {
     #[cfg(feature = "k_gen")]
     "graph" | "registry" => k_graph::eval(op, input),
     #[cfg(feature = "k_gen")]
+    "inject" => k_resp::eval_inject(op, input),
+    #[cfg(feature = "k_gen")]
     "flags" => k_resp::eval_flags(op, input),
     #[cfg(feature = "k_gen")]
     "interop" => k_resp::eval_interop(op, input),
